@@ -562,29 +562,57 @@ Lemma tls_off_disables dc h hasargs os c :
 Proof. unfold tls_setup. intro H. injection H as <-. reflexivity. Qed.
 
 (* ------------------------------------------------------------------ strict SNI = Host *)
-Lemma strict_sni_host sites sni rhost i s :
-  serve sites (Some sni) rhost = Served i -> nth_error sites i = Some s -> demands (s_tls s) = true ->
-  to_lower sni = route_host rhost.
+Lemma strict_served sites dflt conn sni rhost i s :
+  serve sites dflt conn (Some sni) rhost = Served i -> nth_error sites i = Some s -> demands (s_tls s) = true ->
+  to_lower sni = route_host rhost /\ (sni = [] -> sniless_elsewhere sites dflt conn = false).
 Proof.
   unfold serve. destruct (vmatch (vhosts sites) (route_host rhost)) as [[k j]|]; [|discriminate].
   destruct (nth_error sites j) as [s'|] eqn:Ej; [|discriminate].
-  destruct (strict_fail (s_tls s') (Some sni) (route_host rhost)) eqn:Es; [discriminate|].
+  destruct (strict_fail (s_tls s') (Some sni) (route_host rhost) (sniless_elsewhere sites dflt conn)) eqn:Es;
+    [discriminate|].
   intro H. injection H as <-. intros Hn Hd. rewrite Ej in Hn. injection Hn as <-.
   unfold strict_fail in Es. rewrite Hd in Es. simpl in Es.
-  apply negb_false_iff in Es. apply beq_eq in Es. exact Es.
+  apply orb_false_iff in Es as [Es1 Es2].
+  apply negb_false_iff in Es1. apply beq_eq in Es1. split; [exact Es1|].
+  intros ->. simpl in Es2. exact Es2.
 Qed.
 
-Lemma forbidden_only_on_mismatch sites tls rhost i :
-  serve sites tls rhost = Forbidden i ->
+Lemma strict_sni_host sites dflt conn sni rhost i s :
+  serve sites dflt conn (Some sni) rhost = Served i -> nth_error sites i = Some s -> demands (s_tls s) = true ->
+  to_lower sni = route_host rhost.
+Proof. intros H1 H2 H3. exact (proj1 (strict_served _ _ _ _ _ _ _ H1 H2 H3)). Qed.
+
+(* a request without SNI reaches a client-certificate site only when no default server name is
+   set and no site is named by the local address of the connection *)
+Lemma sniless_served sites dflt conn rhost i s :
+  serve sites dflt conn (Some []) rhost = Served i -> nth_error sites i = Some s -> demands (s_tls s) = true ->
+  trim_space dflt = [] /\
+  forall a s', conn = Some a -> In s' sites -> host (s_tls s') <> host_only a.
+Proof.
+  intros H1 H2 H3. pose proof (proj2 (strict_served _ _ _ _ _ _ _ H1 H2 H3) eq_refl) as He.
+  unfold sniless_elsewhere in He. apply orb_false_iff in He as [He1 He2]. split.
+  - apply negb_false_iff in He1. destruct (trim_space dflt); [reflexivity|discriminate].
+  - intros a s' -> Hin Heq.
+    assert (Hex : existsb (fun s0 => beq (host (s_tls s0)) (host_only a)) sites = true).
+    { apply existsb_exists. exists s'. split; [exact Hin|]. apply beq_eq. exact Heq. }
+    rewrite Hex in He2. discriminate.
+Qed.
+
+Lemma forbidden_only_on_mismatch sites dflt conn tls rhost i :
+  serve sites dflt conn tls rhost = Forbidden i ->
   exists sni s, tls = Some sni /\ nth_error sites i = Some s /\ demands (s_tls s) = true /\
-                to_lower sni <> route_host rhost.
+                (to_lower sni <> route_host rhost \/
+                 (sni = [] /\ sniless_elsewhere sites dflt conn = true)).
 Proof.
   unfold serve. destruct (vmatch (vhosts sites) (route_host rhost)) as [[k j]|]; [|discriminate].
   destruct (nth_error sites j) as [s'|] eqn:Ej; [|discriminate].
-  destruct (strict_fail (s_tls s') tls (route_host rhost)) eqn:Es; [|discriminate].
+  destruct (strict_fail (s_tls s') tls (route_host rhost) (sniless_elsewhere sites dflt conn)) eqn:Es; [|discriminate].
   intro H. injection H as <-. unfold strict_fail in Es. destruct tls as [sni|]; [|discriminate].
   apply andb_true_iff in Es as [Hd Hn]. exists sni, s'. repeat split; try assumption.
-  apply negb_true_iff in Hn. apply beq_false_neq. exact Hn.
+  apply orb_true_iff in Hn as [Hn|Hn].
+  - left. apply negb_true_iff in Hn. apply beq_false_neq. exact Hn.
+  - right. apply andb_true_iff in Hn as [Hn1 Hn2]. split; [|exact Hn2].
+    destruct sni; [reflexivity|discriminate].
 Qed.
 
 (* ------------------------------------------------------------------ composite *)
@@ -726,23 +754,19 @@ Theorem clientauth_policy_governs dc bad sites g dflt conn sni rhost v s :
   make_tls_config dc bad (map (fun s => Some (s_tls s)) sites) = MkGroup g ->
   (forall s, In s sites -> vhost_key (s_addr s) = host (s_tls s)) ->
   (forall c, In c fallback_star_names -> mget c (vhosts sites) = None) ->
-  serve sites (Some sni) rhost = Served v -> nth_error sites v = Some s -> demands (s_tls s) = true ->
-  trim_space sni = sni -> sni <> [] ->
+  serve sites dflt conn (Some sni) rhost = Served v -> nth_error sites v = Some s -> demands (s_tls s) = true ->
+  trim_space sni = sni ->
   exists k i c ob, get_config g dflt conn sni = Found k (i, c, ob) /\ build dc bad (s_tls s) = Some ob.
 Proof.
-  intros Hmk Hsites Hstar Hserve Hnth Hdem Htrim Hne.
-  pose proof (strict_sni_host _ _ _ _ _ Hserve Hnth Hdem) as Hsni.
+  intros Hmk Hsites Hstar Hserve Hnth Hdem Htrim.
+  pose proof (strict_sni_host _ _ _ _ _ _ _ Hserve Hnth Hdem) as Hsni.
+  pose proof Hserve as Hserve0.
   set (h := to_lower sni).
-  assert (Hname : effective_name dflt sni = h).
-  { unfold effective_name, normalized_name. rewrite Htrim. fold h.
-    destruct (is_nil h) eqn:E; [|reflexivity]. exfalso. apply (to_lower_nonempty sni Hne). fold h.
-    destruct h; [reflexivity|discriminate]. }
-  assert (Hhne : h <> []) by (apply to_lower_nonempty; exact Hne).
   (* the routed site and its key *)
   unfold serve in Hserve. rewrite <- Hsni in Hserve. fold h in Hserve.
   destruct (vmatch (vhosts sites) h) as [[kk j]|] eqn:Ev; [|discriminate].
   destruct (nth_error sites j) as [s'|] eqn:Ej; [|discriminate].
-  destruct (strict_fail (s_tls s') (Some sni) h); [discriminate|].
+  destruct (strict_fail (s_tls s') (Some sni) h _); [discriminate|].
   injection Hserve as ->. rewrite Hnth in Ej. injection Ej as <-.
   set (e := vhosts sites) in *.
   set (cfgs := map (fun s => Some (s_tls s)) sites) in *.
@@ -766,63 +790,95 @@ Proof.
     destruct (key_of_cases (host cf)) as [[Hk0 _]|[Hk0 [N1 N2]]].
     - rewrite Hk0 in Hk. destruct Hc as [-> | ->]; discriminate.
     - rewrite Hk0 in Hk. destruct Hc as [-> | ->]; congruence. }
-  assert (Hcne : forall c, In c (h :: wild_cands h) -> c <> []).
-  { intros c [<-|Hc]; [exact Hhne|]. destruct (wild_cands_star _ _ Hc) as [t ->]. discriminate. }
-  (* the group holds settings equal to s's own under the key of s *)
-  destruct (group_own_settings dc bad cfgs g (s_tls s) Hmk) as [i' [c' [ob' [Hg' Hb']]]].
-  { unfold cfgs. apply in_map_iff. exists s. split; [reflexivity|exact Hin]. }
-  (* when nothing more specific is in the group and s is a catch-all site, "" governs *)
-  assert (Hcatch : (forall c, In c (h :: wild_cands h) -> mget c g = None) -> key_of kk = [] ->
-                   mget kk e = Some v ->
-                   exists k i c ob, get_config g dflt conn sni = Found k (i, c, ob) /\
-                                    build dc bad (s_tls s) = Some ob).
-  { intros Hnone Hk0 Hgv. rewrite <- (Hkey _ Hgv), Hk0 in Hg'.
-    exists [], i', c', ob'. split; [|exact Hb'].
-    unfold get_config. rewrite Hname.
-    destruct (is_nil h) eqn:E; [destruct h; [congruence|discriminate]|].
-    change (h :: wild_cands h ++ [[]]) with ((h :: wild_cands h) ++ [[]]).
-    replace (find_key g ((h :: wild_cands h) ++ [[]])) with (Some (@nil N, (i', c', ob')));
-      [reflexivity|symmetry; apply find_key_at; assumption]. }
-  unfold vmatch in Ev. cbn [first_match] in Ev.
-  destruct (match_host e h) as [x|] eqn:E0.
-  - (* matched by the request's own name *)
-    injection Ev as ->. unfold match_host in E0.
-    destruct (find_key_some _ _ _ _ E0) as [Hgv [pre [post [Hc Hp]]]].
-    assert (Hkin : In kk (h :: wild_cands h)) by (rewrite Hc; apply in_or_app; right; left; reflexivity).
-    destruct (key_of_cases kk) as [[Hk0 Hun]|[Hk0 [N1 N2]]].
-    + (* the request names an unspecified address that is a site *)
+  assert (Hwne : forall x c, In c (wild_cands x) -> c <> []).
+  { intros x c Hc. destruct (wild_cands_star _ _ Hc) as [t ->]. discriminate. }
+  (* how the router found the site: through a key that is also the TLS key, preceded in the
+     candidate list only by absent names, or through a catch-all spelling while no more
+     specific name is in the TLS group *)
+  assert (RA : mget kk e = Some v /\
+               ((key_of kk = [] /\ forall c, In c (h :: wild_cands h) -> c <> [] -> mget c g = None) \/
+                (key_of kk = kk /\ exists pre post, h :: wild_cands h = pre ++ kk :: post /\
+                                                    forall c, In c pre -> mget c e = None))).
+  { unfold vmatch in Ev. cbn [first_match] in Ev.
+    destruct (match_host e h) as [x|] eqn:E0.
+    - injection Ev as ->. unfold match_host in E0.
+      destruct (find_key_some _ _ _ _ E0) as [Hgv [pre [post [Hc Hp]]]]. split; [exact Hgv|].
+      assert (Hkin : In kk (h :: wild_cands h)) by (rewrite Hc; apply in_or_app; right; left; reflexivity).
+      destruct (key_of_cases kk) as [[Hk0 Hun]|[Hk0 _]]; [left|right; split; [exact Hk0|eauto]].
+      split; [exact Hk0|].
       assert (Hkh : kk = h).
       { destruct Hkin as [->|Hw]; [reflexivity|]. destruct (wild_cands_star _ _ Hw) as [t ->].
         destruct Hun as [Hun|Hun]; discriminate. }
-      apply Hcatch; [|exact Hk0|exact Hgv].
-      intros c [<-|Hw]; [apply Hunspec; rewrite <- Hkh; exact Hun|].
-      apply Hdom; [apply Hcne; right; exact Hw|]. apply Hstar.
+      intros c [<-|Hw] Hcn; [apply Hunspec; rewrite <- Hkh; exact Hun|].
+      apply Hdom; [exact Hcn|]. apply Hstar.
       unfold fallback_star_names, fallback_hosts. apply in_flat_map. exists h. split; [|exact Hw].
       rewrite <- Hkh. destruct Hun as [-> | ->]; [left; reflexivity|right; left; reflexivity].
-    + rewrite <- (Hkey _ Hgv), Hk0 in Hg'.
-      exists kk, i', c', ob'. split; [|exact Hb'].
-      unfold get_config. rewrite Hname.
-      destruct (is_nil h) eqn:E; [destruct h; [congruence|discriminate]|].
-      change (h :: wild_cands h ++ [[]]) with ((h :: wild_cands h) ++ [[]]).
+    - assert (Hfb : exists h', In h' fallback_hosts /\ match_host e h' = Some (kk, v)).
+      { apply first_match_cases. unfold fallback_hosts. cbn [first_match]. exact Ev. }
+      destruct Hfb as [h' [Hh' Hm]]. unfold match_host in Hm.
+      destruct (find_key_some _ _ _ _ Hm) as [Hgv [pre [post [Hc Hp]]]]. split; [exact Hgv|]. left.
+      assert (Hkin : In kk (h' :: wild_cands h')) by (rewrite Hc; apply in_or_app; right; left; reflexivity).
+      assert (Hkh : kk = h').
+      { destruct Hkin as [->|Hw]; [reflexivity|]. exfalso.
+        assert (Hs : mget kk e = None).
+        { apply Hstar. unfold fallback_star_names. apply in_flat_map. exists h'. split; assumption. }
+        rewrite Hs in Hgv. discriminate. }
+      split.
+      + rewrite Hkh. unfold fallback_hosts in Hh'.
+        destruct Hh' as [<-|[<-|[<-|[]]]]; vm_compute; reflexivity.
+      + intros c Hcin Hcn. apply Hdom; [exact Hcn|]. eapply find_key_none; [exact E0|exact Hcin]. }
+  destruct RA as [Hgv RA].
+  (* the group holds settings equal to s's own under the key of s *)
+  destruct (group_own_settings dc bad cfgs g (s_tls s) Hmk) as [i' [c' [ob' [Hg' Hb']]]].
+  { unfold cfgs. apply in_map_iff. exists s. split; [reflexivity|exact Hin]. }
+  rewrite <- (Hkey _ Hgv) in Hg'.
+  destruct sni as [|b0 sni'].
+  - (* no SNI: no default server name, no site named by the local address; the catch-all governs *)
+    destruct (sniless_served _ _ _ _ _ _ Hserve0 Hnth Hdem) as [Hd Hip].
+    assert (Hk0 : key_of kk = []).
+    { destruct RA as [[Hk0 _]|[_ [pre [post [Hc _]]]]]; [exact Hk0|].
+      assert (Hkin : In kk (h :: wild_cands h)) by (rewrite Hc; apply in_or_app; right; left; reflexivity).
+      destruct Hkin as [<-|Hw]; [reflexivity|]. exfalso.
+      assert (Hs : mget kk e = None).
+      { apply Hstar. unfold fallback_star_names, fallback_hosts. apply in_flat_map. exists [].
+        split; [right; right; left; reflexivity|exact Hw]. }
+      rewrite Hs in Hgv. discriminate. }
+    rewrite Hk0 in Hg'.
+    exists [], i', c', ob'. split; [|exact Hb'].
+    unfold get_config, effective_name, normalized_name. rewrite Hd. cbn [trim_space trim_left rev app to_lower map is_nil].
+    match goal with |- context [@find_key ?V g ?l] =>
+      assert (Hfk : @find_key V g l = Some ([], (i', c', ob')))
+    end.
+    { cbn [find_key]. rewrite Hg'. reflexivity. }
+    destruct conn as [a|]; [|rewrite Hfk; reflexivity].
+    destruct (mget (host_only a) g) as [[[i2 c2] ob2]|] eqn:Ea; [|rewrite Hfk; reflexivity].
+    destruct (group_entries _ _ _ _ Hmk _ _ _ _ Ea) as [Hn2 [Hk2 _]].
+    apply nth_error_In in Hn2. unfold cfgs in Hn2. apply in_map_iff in Hn2.
+    destruct Hn2 as [s2 [Hs2 Hin2]]. injection Hs2 as <-.
+    destruct (key_of_cases (host (s_tls s2))) as [[Hk3 _]|[Hk3 _]].
+    + rewrite Hk3 in Hk2. rewrite <- Hk2 in Ea. rewrite Hg' in Ea. injection Ea as <- <- <-.
+      rewrite <- Hk2. reflexivity.
+    + exfalso. apply (Hip a s2 eq_refl Hin2). congruence.
+  - set (sni := b0 :: sni') in *. assert (Hne : sni <> []) by discriminate.
+    assert (Hname : effective_name dflt sni = h).
+    { unfold effective_name, normalized_name. rewrite Htrim. fold h.
+      destruct (is_nil h) eqn:E; [|reflexivity]. exfalso. apply (to_lower_nonempty sni Hne). fold h.
+      destruct h; [reflexivity|discriminate]. }
+    assert (Hhne : h <> []) by (apply to_lower_nonempty; exact Hne).
+    assert (Hcne : forall c, In c (h :: wild_cands h) -> c <> []).
+    { intros c [<-|Hc]; [exact Hhne|]. eapply Hwne; exact Hc. }
+    unfold get_config. rewrite Hname.
+    destruct (is_nil h) eqn:E; [destruct h; [congruence|discriminate]|].
+    change (h :: wild_cands h ++ [[]]) with ((h :: wild_cands h) ++ [[]]).
+    destruct RA as [[Hk0 Hnone]|[Hk0 [pre [post [Hc Hp]]]]].
+    + rewrite Hk0 in Hg'. exists [], i', c', ob'. split; [|exact Hb'].
+      replace (find_key g ((h :: wild_cands h) ++ [[]])) with (Some (@nil N, (i', c', ob')));
+        [reflexivity|symmetry; apply find_key_at; [|exact Hg']].
+      intros c Hcin. apply Hnone; [exact Hcin|apply Hcne; exact Hcin].
+    + rewrite Hk0 in Hg'. exists kk, i', c', ob'. split; [|exact Hb'].
       rewrite Hc. rewrite <- app_assoc. simpl.
       replace (find_key g (pre ++ kk :: post ++ [[]])) with (Some (kk, (i', c', ob')));
         [reflexivity|symmetry; apply find_key_at; [|exact Hg']].
       intros c Hcp. apply Hdom; [|apply Hp; exact Hcp].
       apply Hcne. rewrite Hc. apply in_or_app. left. exact Hcp.
-  - (* matched through a fallback host: only the host itself can be a site *)
-    assert (Hnone : forall c, In c (h :: wild_cands h) -> mget c g = None).
-    { intros c Hcin. apply Hdom; [apply Hcne; exact Hcin|]. eapply find_key_none; [exact E0|exact Hcin]. }
-    assert (Hfb : exists h', In h' fallback_hosts /\ match_host e h' = Some (kk, v)).
-    { apply first_match_cases. unfold fallback_hosts. cbn [first_match]. exact Ev. }
-    destruct Hfb as [h' [Hh' Hm]]. unfold match_host in Hm.
-    destruct (find_key_some _ _ _ _ Hm) as [Hgv [pre [post [Hc Hp]]]].
-    assert (Hkin : In kk (h' :: wild_cands h')) by (rewrite Hc; apply in_or_app; right; left; reflexivity).
-    assert (Hkh : kk = h').
-    { destruct Hkin as [->|Hw]; [reflexivity|]. exfalso.
-      assert (Hs : mget kk e = None).
-      { apply Hstar. unfold fallback_star_names. apply in_flat_map. exists h'. split; assumption. }
-      rewrite Hs in Hgv. discriminate. }
-    apply Hcatch; [exact Hnone| |exact Hgv].
-    rewrite Hkh. unfold fallback_hosts in Hh'.
-    destruct Hh' as [<-|[<-|[<-|[]]]]; vm_compute; reflexivity.
 Qed.
